@@ -215,7 +215,7 @@ impl AsetScenario {
                         // Waker replaced: the previous one must have been dropped, not woken.
                         let old = m.waker_of[i].expect("waiting awaiter has a waker");
                         check!(
-                            Arc::strong_count(&cells[old]) == 1 && cells[old].wakes.load(Ordering::Relaxed) == seen_wakes[old],
+                            cells[old].alive() == 0 && cells[old].wakes.load(Ordering::Relaxed) == seen_wakes[old],
                             "aset-replaced-waker-not-dropped",
                             "op {k}: re-register of awaiter {i} left the previous waker alive or woke it"
                         );
@@ -246,7 +246,7 @@ impl AsetScenario {
                         m.life[i] = Life::Idle;
                         let old = m.waker_of[i].take().expect("waiting awaiter has a waker");
                         check!(
-                            Arc::strong_count(&cells[old]) == 1,
+                            cells[old].alive() == 0,
                             "aset-unregister-kept-waker",
                             "op {k}: unregister({i}) did not drop the stored waker"
                         );
@@ -402,10 +402,10 @@ impl AsetScenario {
         }
         for (i, c) in cells.iter().enumerate() {
             check!(
-                Arc::strong_count(c) == 1,
+                c.alive() == 0,
                 "waker-leaked",
                 "waker #{i}: {} reference(s) still alive at the end",
-                Arc::strong_count(c) - 1
+                c.alive()
             );
         }
         Ok(())
